@@ -30,6 +30,7 @@ EXPLANATION = (
     "embedded). R7.4: fitted state lives on per-call-site instances initialised in __init__. R7.5: the caller's "
     "frame and namespace are never written. R7.6: a Model is built per design_matrices call and has no other "
     "holder. R7.7: no randomness/clock, and iteration over sets feeds only order-insensitive consumers."
+    ' R7.7 also follows containers filled in the iteration order of a set (sa/hashorder.py: nesting-depth lattice, typed call graph) and reports every order-sensitive use of such a container.'
 )
 ASSUMPTIONS = [
     "numpy: advanced (array/mask) indexing, arithmetic, np.copy/where/column_stack/concatenate/empty/zeros create new arrays; basic slicing, .T, .values, np.asarray may alias",
